@@ -106,12 +106,6 @@ def stepValue : Step → Option Bytes
 /-- the TZ values that occur in a history (plus the initial one) -/
 def valuesOf (e : EnvVal) (h : List Step) : List Bytes := envValue e ++ h.filterMap stepValue
 
-/-- the hash is injective on a set of strings -/
-def InjOn (W : World) (S : List Bytes) : Prop :=
-  ∀ a ∈ S, ∀ b ∈ S, W.hash a = W.hash b → a = b
-
-instance (W : World) (S : List Bytes) : Decidable (InjOn W S) := by unfold InjOn; exact inferInstance
-
 def ONE_SECOND : Nat := 1000000000
 
 end Chrono.Spec.LocalCache
